@@ -112,7 +112,8 @@ func c08claim(c *Ctx) {
 		return
 	}
 	ev := cfgx.ErrEvents(del[0])
-	c.requireCross(site(rm[0])+" after Delete(xr)", rm[0], union(wcFalse, ev.OK), "WasCreated(xr)==false or the success edge of client.Delete(xr)")
+	// Delete succeeded, or the XR is already gone (IgnoreNotFound, or the explicit IsNotFound test)
+	c.requireCross(site(rm[0])+" after Delete(xr)", rm[0], union(union(wcFalse, ev.OK), ev.PredTrue["errors.IsNotFound"]), "WasCreated(xr)==false or the success edge of client.Delete(xr)")
 
 	// the foreground predicate: *cdp == CompositeDeleteForeground, tested directly
 	// or through a boolean that can only be true when the comparison is
@@ -122,13 +123,13 @@ func c08claim(c *Ctx) {
 	for _, b := range fn.Blocks {
 		for _, in := range b.Instrs {
 			bo, ok := in.(*ssa.BinOp)
-			if !ok || bo.Op != token.EQL {
+			if !ok || !isEqOrNeq(bo) {
 				continue
 			}
 			for _, side := range []ssa.Value{bo.X, bo.Y} {
 				if s, ok := cfgx.ConstString(side); ok && s == "Foreground" && strings.HasSuffix(side.Type().String(), "common/v1.CompositeDeletePolicy") {
 					fgVals[bo] = true
-					t, _ := cfgx.CondEdges(bo)
+					t, _ := eqEdges(bo)
 					fgTrue = append(fgTrue, t...)
 				}
 			}
